@@ -17,7 +17,7 @@ RULE = (
     "x Hypothesis-generated states. Sequence: initial save, state change, FAULTY scheduled attempt, state change, "
     "clean attempt. The faulty attempt is enumerated exhaustively per state: every file operation of the save "
     "failing with OSError, every permission pre-check answering 'not writable', and every k-th call of the JSON encoder hook / Sensor.__getstate__ at which a "
-    "concurrent message (adds a node / a child / a value) is processed. Oracle: after the faulty attempt a fresh "
+    "concurrent message (adds a node / a child / a value, or is the wake-up announcement of a smart-sleep node that has an uncovered child) is processed. Oracle: after the faulty attempt a fresh "
     "load yields the previously saved state or a complete newer one (never partial); 'not marked unsaved' implies "
     "'file == current state'; nothing escapes the timer callback / the save task stays alive and a further "
     "attempt is armed; after the next clean attempt a fresh load equals the then-current state. Non-trivial = "
@@ -41,7 +41,7 @@ def cases(draw):
         nid0 = int(lines[0].split(";")[0])
         lines.append(f"{nid0};255;3;0;11;{'a very long sketch name ' * 6}")
         change2 = f"{nid0};255;3;0;11;s"
-    return {
+    case = {
         "version": draw(st.sampled_from(common.VERSIONS)),
         "ext": draw(st.sampled_from(["json", "pickle"])),
         "flavour": draw(st.sampled_from(["threaded", "asyncio"])),
@@ -49,6 +49,23 @@ def cases(draw):
         "change1": change1,
         "change2": change2,
     }
+    if draw(st.booleans()):
+        make_sleepy(case)
+    return case
+
+
+def make_sleepy(case):
+    """Node 1 becomes a smart-sleep node with two children in its desired-state map and a third child presented
+    after its last wake-up: its next wake-up announcement (a concurrent message candidate) then changes the
+    node WITHOUT being a state-changing report."""
+    from vf.ref import tables as T
+
+    if T.wake_sub(case["version"]) is None:
+        case["version"] = "2.2"
+    wake = f"1;255;3;0;{T.wake_sub(case['version'])};5"
+    case["state"] = list(case["state"]) + ["1;255;0;0;17;2.0", "1;0;0;0;6;a", "1;1;0;0;6;b", wake, "1;2;0;0;6;late"]
+    case["wake"] = wake
+    return case
 
 
 CONCURRENT = ["7;255;0;0;17;2.0", "1;2;0;0;6;late child", "1;0;1;0;26;late value", "1;1;1;0;27;late value", "1;255;3;0;0;5"]
@@ -200,6 +217,8 @@ class Injector:
         self._pmod, self._smod = pmod, smod
         self._default = pmod.MySensorsJSONEncoder.default
         self._getstate = smod.Sensor.__getstate__
+        self._child_had = "__getstate__" in smod.ChildSensor.__dict__
+        self._child_getstate = smod.ChildSensor.__dict__.get("__getstate__")
         inj = self
 
         def default(enc, o):
@@ -210,8 +229,16 @@ class Injector:
             inj.hit()
             return inj._getstate(sensor)
 
+        def child_getstate(child):
+            # pickle reaches the children while it iterates the node's dicts
+            inj.hit()
+            if inj._child_getstate is not None:
+                return inj._child_getstate(child)
+            return dict(child.__dict__)
+
         pmod.MySensorsJSONEncoder.default = default
         smod.Sensor.__getstate__ = getstate
+        smod.ChildSensor.__getstate__ = child_getstate
         return self
 
     def hit(self):
@@ -225,6 +252,10 @@ class Injector:
     def __exit__(self, *exc):
         self._pmod.MySensorsJSONEncoder.default = self._default
         self._smod.Sensor.__getstate__ = self._getstate
+        if self._child_had:
+            self._smod.ChildSensor.__getstate__ = self._child_getstate
+        else:
+            del self._smod.ChildSensor.__getstate__
         return False
 
 
@@ -350,7 +381,7 @@ def check_case(case, stats=None, only=None, collect=None):
             _, fired = run(("denied", k))
             if stats is not None and fired:
                 stats.case(f"{key}:denied:{k}", {"flavour": case["flavour"], "ext": case["ext"], "fault": ["denied", k]}, labels=(case["flavour"], case["ext"], "permission-denied"))
-        for line in CONCURRENT:
+        for line in CONCURRENT + ([case["wake"]] if case.get("wake") else []):
             k = 0
             while True:
                 calls, fired = run(("concurrent", k, line))
@@ -386,6 +417,9 @@ def draw_cases(n, seed_value):
             base["state"] = list(base["state"]) + [f"{nid0};255;3;0;11;{'a very long sketch name ' * 6}"]
             base["change2"] = f"{nid0};255;3;0;11;s"
             out.append(base)
+    for flavour in ("threaded", "asyncio"):
+        if out and not any(c["ext"] == "pickle" and c["flavour"] == flavour and c.get("wake") for c in out):
+            out.append(make_sleepy(dict(out[-1], ext="pickle", flavour=flavour)))
     have = {(c["ext"], c["flavour"]) for c in out}
     for ext in ("json", "pickle"):
         for flavour in ("threaded", "asyncio"):
